@@ -36,11 +36,12 @@ type Hist struct {
 	Cfg     HistCfg
 	Classes map[string]bool
 
-	sentSeen    int
-	monitors    []func(h *Hist) // run after every step
-	stop        bool            // a monitor hit a known finding: stop checking this case
-	startedAt   map[string]int  // swap id -> op index
-	preRecovery map[string]bool // ids of messages delivered between Start() and RecoverSwaps()
+	sentSeen     int
+	monitors     []func(h *Hist) // run after every step
+	hangReported bool
+	stop         bool            // a monitor hit a known finding: stop checking this case
+	startedAt    map[string]int  // swap id -> op index
+	preRecovery  map[string]bool // ids of messages delivered between Start() and RecoverSwaps()
 }
 
 // HistCfg tunes the generator.
@@ -101,7 +102,15 @@ func newHist(t *rapid.T, cfg HistCfg) *Hist {
 	return h
 }
 
-func (h *Hist) Close() { h.W.Close() }
+func (h *Hist) Close() {
+	h.W.Close()
+	hangs := h.W.AllHangs()
+	if len(hangs) > 0 && !h.hangReported {
+		// also when the hang happened in a closure phase that runs no monitors
+		h.hangReported = true
+		h.T.Fatalf("VKEY[C18/entry-point-never-returned] a call into the node did not return within %v\n%s\n-- goroutines --\n%s", sim.StepWatchdog, h.dump(), hangs[0])
+	}
+}
 
 func (h *Hist) nodes() []*sim.Node { return []*sim.Node{h.A, h.B} }
 
@@ -112,13 +121,14 @@ func (h *Hist) afterStep() {
 	if h.stop {
 		return
 	}
-	if len(h.W.Hangs) > 0 {
+	if hs := h.W.AllHangs(); len(hs) > 0 {
 		// whatever property the history is checking: an entry point that never returns is a violation
 		last := ""
 		if len(h.Ops) > 0 {
 			last = h.Ops[len(h.Ops)-1]
 		}
-		h.T.Fatalf("VKEY[C18/entry-point-never-returned] a call into the node did not return within %v (history so far ends with %q)\n%s\n-- goroutines --\n%s", sim.StepWatchdog, last, h.dump(), h.W.Hangs[0])
+		h.hangReported = true
+		h.T.Fatalf("VKEY[C18/entry-point-never-returned] a call into the node did not return within %v (history so far ends with %q)\n%s\n-- goroutines --\n%s", sim.StepWatchdog, last, h.dump(), hs[0])
 	}
 	for _, m := range h.monitors {
 		m(h)
